@@ -237,7 +237,7 @@ def PTree.labelsL : List PTree → List String
 end
 
 /-- how `infer_or_gate_from_node` sorts the children of a parallel node: (optional branches, mandatory ones);
-children with any other operator land in neither list -/
+a child with any other operator is mandatory (repaired: c6e9ec1 — it used to land in neither list) -/
 def classify : List PTree → List PTree × List PTree
   | [] => ([], [])
   | c :: cs =>
@@ -246,7 +246,7 @@ def classify : List PTree → List PTree × List PTree
     | .leaf _ => (t, c :: n)
     | .tau => (t, c :: n)
     | .node .xor gcs => if gcs.any PTree.isTau then (c :: t, n) else (t, c :: n)
-    | .node _ _ => (t, n)
+    | .node _ _ => (t, c :: n)
 
 def grandchildrenOf : PTree → List PTree
   | .node _ gcs => gcs.filter fun g => !g.isTau
@@ -339,7 +339,8 @@ def leafLabel? : PTree → Option String
   | _ => none
 
 mutual
-/-- `process_missing_and_gates` under every outcome of the cover step -/
+/-- `process_missing_and_gates` under every outcome of the cover step; every observed set counts with the part of it
+that lies among the gate's events (repaired: dcf1496 — only the sets lying wholly inside used to count) -/
 def missingAnd : Nat → List (List String) → PTree → List PTree
   | 0, _, t => [t]
   | fuel + 1, sets, .node op cs =>
@@ -347,7 +348,7 @@ def missingAnd : Nat → List (List String) → PTree → List PTree
       if op == .or then
         match cs.mapM leafLabel? with
         | some uni =>
-          let rec_ := (sets.filter fun s => subsetS s uni)
+          let rec_ := ((sets.map fun s => interS s uni).filter fun s => !s.isEmpty).eraseDups
           (weightedCover rec_ uni).map fun r => match r with
             | some cover => cover.map fun p => match p with
               | [a] => PTree.leaf a
